@@ -459,7 +459,10 @@ spifmem_realloc(const char *var, const char *filename, unsigned long line, void 
 #endif
 
     D_MEM(("Variable %s (%10p -> %lu) at %s:%lu\n", var, ptr, (unsigned long) size, NONULL(filename), line));
-    if (!ptr) {
+    if (!ptr && size == 0) {
+        /* Same as the non-tracking REALLOC() macro:  nothing to free, nothing to allocate. */
+        temp = NULL;
+    } else if (!ptr) {
         temp = (void *) spifmem_malloc(filename, line, size);
     } else if (size == 0) {
         spifmem_free(var, filename, line, ptr);
